@@ -21,6 +21,22 @@ pub fn programs06() -> Vec<(String, Program, bool)> {
         p.push(None, Stmt::Named(0x25, "halt"));
         v.push((format!("origin{i}-x{o:04x}"), p, false));
     }
+    // adjacent identical statements that refer to a label (the same text, different offsets)
+    let mut p = Program::default();
+    p.push(None, Stmt::And(0, 0, Src2::Imm(Lit::dec(0))));
+    p.push(None, Stmt::Jsr(Target::Label("bump".into())));
+    p.push(None, Stmt::Jsr(Target::Label("bump".into())));
+    p.push(None, Stmt::Mem(PcRel::Ld, 1, Target::Label("one".into())));
+    p.push(None, Stmt::Mem(PcRel::Ld, 1, Target::Label("one".into())));
+    p.push(None, Stmt::Add(0, 0, Src2::Reg(1)));
+    p.push(None, Stmt::Named(0x26, "putn"));
+    p.push(None, Stmt::Named(0x25, "halt"));
+    p.push(Some("bump"), Stmt::Add(0, 0, Src2::Imm(Lit::dec(1))));
+    p.push(None, Stmt::Add(0, 0, Src2::Imm(Lit::dec(1))));
+    p.push(None, Stmt::Ret);
+    p.push(Some("one"), Stmt::Fill(Lit::hex(0x0001)));
+    p.push(None, Stmt::Fill(Lit::hex(0x0064)));
+    v.push(("adjacent-identical-references".to_string(), p, false));
     // data with every byte pattern class, strings
     let mut p = Program::default();
     p.push(None, Stmt::Mem(PcRel::Lea, 0, Target::Label("s".into())));
